@@ -358,7 +358,7 @@ def rule_r3(repo, tier):
     fi = repo.method('Decoder', 'process_section')
     for k in (0, 5, 8, 19):
         content_bits = 32 + k
-        for declared in range(max(1, (content_bits + 7) // 8 - 2), (content_bits + 7) // 8 + 4):
+        for declared in [0, 1] + list(range(max(2, (content_bits + 7) // 8 - 2), (content_bits + 7) // 8 + 4)):
             it = SecInterp(repo, 'Decoder', k)
 
             def mk():
@@ -585,5 +585,9 @@ def run(repo, check):
     share(check, repo, c19.rule_r7, 'C04.R7', 'a length field is overwritten in place without moving anything else (shared with C19.R7)')
     share(check, repo, c11.rule_r1, 'C04.R8', 'the scanner reports the span the decoder walked, not the declared total, when the data are decoded (shared with C11.R1)',
           keep=lambda f: ':full:' in f.key and f.key.endswith(':yields'), args=(check.tier,))
+    from sa.rules import c17 as _c17
+    from sa.rules.common import share as _sh
+    _sh(check, repo, _c17.rule_r3, 'C04.R9', 'decoder options never rewrite, and never cache across editions, the section layouts that frame later messages (shared with C17.R3)')
+    _sh(check, repo, _c17.rule_r6, 'C04.R10', 'every section of every edition is framed with the layout file written for it (shared with C17.R6)')
     check.assumptions = ['bit positions are modelled exactly (a field of n bits advances the position by n); the bytes themselves are bitstring\'s (C19)',
                          'the synthetic section layouts used for the fold have the same shape as sections 1-4 (24-bit section_length, fixed part, data)']
